@@ -65,6 +65,15 @@ func maxw(w []int) int {
 }
 
 func same(w []int, _ int) bool { return w[0] == w[1] }
+
+// divWz: result widths of the unsigned dividers: the dividend's, and for operands of different widths also the
+// divisor's (the compiler divides a 32-bit literal by a narrower or wider variable and vice versa).
+func divWz(w []int, _ int) []int {
+	if w[0] == w[1] {
+		return []int{w[0]}
+	}
+	return []int{w[0], w[1]}
+}
 func anyW(w []int, _ int) bool { return true }
 func one(w []int, _ int) []int { return []int{1} }
 
@@ -106,7 +115,7 @@ var ops = []opDef{
 			return circuits.NewMultiplier(cc, k.Thr, in[0], in[1], z)
 		},
 		ref: func(k cs, v []*big.Int) *big.Int { return new(big.Int).Mul(v[0], v[1]) }},
-	{name: "udiv", nin: 2, ok: same, wz: func(w []int, _ int) []int { return []int{w[0]} },
+	{name: "udiv", nin: 2, ok: anyW, wz: divWz,
 		build: func(cc *circuits.Compiler, k cs, in [][]*circuits.Wire, z []*circuits.Wire) error {
 			return circuits.NewUDivider(cc, in[0], in[1], z, nil)
 		},
@@ -116,7 +125,7 @@ var ops = []opDef{
 			}
 			return new(big.Int).Quo(v[0], v[1])
 		}},
-	{name: "umod", nin: 2, ok: same, wz: func(w []int, _ int) []int { return []int{w[0]} },
+	{name: "umod", nin: 2, ok: anyW, wz: divWz,
 		build: func(cc *circuits.Compiler, k cs, in [][]*circuits.Wire, z []*circuits.Wire) error {
 			return circuits.NewUDivider(cc, in[0], in[1], nil, z)
 		},
